@@ -290,6 +290,18 @@ def _c18_worker(case):
                 msgs.append(("union-min-traps", f"minimal trap spaces of the union are not the pairwise products: {len(mu)} vs {len(m1)}x{len(m2)}"))
             if None in iu or len(iu) != len(set(iu)) or len(iu) != au or au != a1 * a2 or len(i1) != a1 or len(i2) != a2:
                 msgs.append(("union-attractors", f"attractors of the union: {len(iu)} seeds for {au} attractors; parts {len(i1)}/{a1} and {len(i2)}/{a2}; product {a1 * a2}"))
+            # the library's own decomposition primitive: the component sub-diagram of the union over the variables of one part (no node
+            # given = the full network) is the diagram of that part
+            su = make_sd(r1 + "\n" + r2)
+            for part, mins_p, na_p in ((n1, m1, a1), (n2, m2, a2)):
+                cs = su.component_subdiagram(list(part))
+                cs.expand_bfs()
+                mc = sorted(tuple(sorted(cs.node_data(i)["space"].items())) for i in cs.minimal_trap_spaces())
+                nc = sum(len(cs.node_attractor_seeds(i, compute=True)) for i in cs.expanded_ids())
+                if mc != mins_p or nc != na_p:
+                    msgs.append(("union-component-subdiagram", f"component_subdiagram({list(part)}) of the union: {len(mc)} minimal trap spaces / {nc} attractors, "
+                                                               f"the part alone has {len(mins_p)} / {na_p}"))
+                    break
         else:
             rules = case["rules"]
             sd = make_sd(rules); nm = var_names(sd); n = len(nm)
@@ -397,7 +409,7 @@ def run_C18(tier, seed):
     extra["bbm"] = {"models_compared": sum(1 for r in res if r[1] is None), "skipped": sum(1 for r in res if r[1] == "skipped"), "max_vars": max([r[2] for r in res] or [0])}
     good = [w for w in ws if not w.get("error") and not w.get("timeout")]
     return {"evaluations": len(cases) + len(files), "distinct_nontrivial": len({case_hash(w["case"]) for w in good if not w.get("trivial")}),
-            "rule": "disjoint unions of two random networks (minimal trap spaces = pairwise products; seeds of the union one-to-one with the product of the brute-force attractor counts; strategies build/bfs/block/scc); networks with identity inputs: the BFS diagram of the network with inputs fixed to a random valuation must equal the sub-diagram below the node of that valuation, with the same attractors; and build() vs biodivine_aeon.Attractors on repository models (a sample in quick, all that finish within the budget in thorough)",
+            "rule": "disjoint unions of two random networks (minimal trap spaces = pairwise products; seeds of the union one-to-one with the product of the brute-force attractor counts; strategies build/bfs/block/scc; component_subdiagram(variables of one part) of the union, expanded, has the minimal trap spaces and attractor count of that part alone); networks with identity inputs: the BFS diagram of the network with inputs fixed to a random valuation must equal the sub-diagram below the node of that valuation, with the same attractors; and build() vs biodivine_aeon.Attractors on repository models (a sample in quick, all that finish within the budget in thorough)",
             "samples": [w["case"] for w in good[:3]], "violations": viol, "extra": extra}
 
 # ---------------------------------------------------------------- C19
